@@ -70,29 +70,30 @@ type Listener interface {
 }
 
 type Cloud struct {
-	mu       sync.Mutex
-	Now      func() int64 // logical clock shared with the monitors
-	MaxENI   int          // instance quota of secondary interfaces (incl. trunk/erdma)
-	Cap      int          // addresses per interface
-	V4, V6   bool
-	enis     map[string]*ENI
-	order    []string
-	nextENI  int
-	nextV4   uint32
-	nextV6   uint64
-	calls    []*Call
-	mutating int
-	Plan     map[int]Fault // by mutating-call index
-	DefDelay func() (time.Duration, time.Duration)
-	lis      Listener
-	everV4   map[netip.Addr]string // address -> eni that it was issued to
-	inflight map[string]int        // api -> in flight
-	Stopped  bool                  // faults off
-	quotaEv  []string              // cloud-side detector: requests that would exceed a limit
-	Rng      *rand.Rand            // per-history PRNG (used under mu)
-	PreDelete func(eniID string)   // called with no lock held right before a DeleteNetworkInterface is logged
-	subnet4  netip.Prefix
-	subnet6  netip.Prefix
+	mu         sync.Mutex
+	Now        func() int64 // logical clock shared with the monitors
+	MaxENI     int          // instance quota of secondary interfaces (incl. trunk/erdma)
+	Cap        int          // addresses per interface
+	V4, V6     bool
+	enis       map[string]*ENI
+	order      []string
+	nextENI    int
+	nextV4     uint32
+	nextV6     uint64
+	calls      []*Call
+	mutating   int
+	Plan       map[int]Fault // by mutating-call index
+	DefDelay   func() (time.Duration, time.Duration)
+	lis        Listener
+	everV4     map[netip.Addr]string           // address -> eni that it was issued to
+	inflight   map[string]int                  // api -> in flight
+	Stopped    bool                            // faults off
+	quotaEv    []string                        // cloud-side detector: requests that would exceed a limit
+	Rng        *rand.Rand                      // per-history PRNG (used under mu)
+	PreDelete  func(eniID string)              // called with no lock held right before a DeleteNetworkInterface is logged
+	PostMutate func(api string, locked *Cloud) // called under the lock after a mutating call's effect
+	subnet4    netip.Prefix
+	subnet6    netip.Prefix
 }
 
 func NewCloud(now func() int64, maxENI, cap int, v4, v6 bool) *Cloud {
@@ -211,6 +212,9 @@ func (c *Cloud) end(call *Call, f Fault, res []netip.Addr, err error) {
 	c.inflight[call.API]--
 	if c.lis != nil {
 		c.lis.OnReturn(c, call)
+	}
+	if call.Mutating && c.PostMutate != nil {
+		c.PostMutate(call.API, c)
 	}
 	c.mu.Unlock()
 	if f.DelayB > 0 {
@@ -575,3 +579,34 @@ func sortedAddrs(m map[netip.Addr]bool) []netip.Addr {
 }
 
 var _ = types.IPSet{}
+
+// Clone returns an independent deep copy of the cloud's state (no listener, no fault plan,
+// empty call log): the cloud as a restarted daemon would find it.
+func (c *Cloud) Clone(now func() int64) *Cloud {
+	c.mu.Lock()
+	defer c.mu.Unlock()
+	return c.CloneLocked(now)
+}
+
+// CloneLocked is Clone for callers that already hold the cloud lock (listeners).
+func (c *Cloud) CloneLocked(now func() int64) *Cloud {
+	n := NewCloud(now, c.MaxENI, c.Cap, c.V4, c.V6)
+	n.nextENI, n.nextV4, n.nextV6 = c.nextENI, c.nextV4, c.nextV6
+	n.Stopped = true
+	n.order = append([]string(nil), c.order...)
+	for id, e := range c.enis {
+		ne := &ENI{ID: e.ID, MAC: e.MAC, Type: e.Type, Primary: e.Primary, V4: map[netip.Addr]bool{}, V6: map[netip.Addr]bool{}, Attached: e.Attached, Deleted: e.Deleted}
+		for a := range e.V4 {
+			ne.V4[a] = true
+		}
+		for a := range e.V6 {
+			ne.V6[a] = true
+		}
+		n.enis[id] = ne
+	}
+	for a, e := range c.everV4 {
+		n.everV4[a] = e
+	}
+	n.Rng = rand.New(rand.NewSource(int64(c.nextV4)*131 + int64(c.nextENI)))
+	return n
+}
